@@ -1,18 +1,23 @@
 #!/bin/bash
-# Run one property check against a seeded change, then restore /repo.
+# Run one property check against a seeded change WITHOUT touching /repo: the change is
+# applied to a scratch copy of /repo, and a scratch copy of /verif is pointed at it.
 #   tools/try_seeded.sh <ID> <patch.diff> [tier] [seed]
-# Prints the check's exit code and its VIOLATION lines. /repo must be clean.
+# Prints the check's exit code and its VIOLATION lines. Several may run at once when
+# given different ALT directories (ALT=/tmp/alt2 tools/try_seeded.sh ...).
 set -u
-ID=$1; PATCH=$2; TIER=${3:-quick}; SEED=${4:-1}
+ID=$1; PATCH=$(readlink -f "$2"); TIER=${3:-quick}; SEED=${4:-1}
+ALT=${ALT:-/tmp/alt}
 export GOFLAGS=-mod=mod GOPROXY=off GOSUMDB=off GOTOOLCHAIN=local
-if [ -n "$(git -C /repo status --porcelain)" ]; then echo "/repo not clean"; exit 3; fi
-git -C /repo apply "$PATCH" || { echo "patch does not apply"; exit 3; }
-trap 'git -C /repo checkout -- . ; git -C /repo clean -fdq' EXIT
-cd /verif
+mkdir -p "$ALT/repo" "$ALT/verif"
+rsync -a --delete --exclude .git /repo/ "$ALT/repo/"
+rsync -a --delete --exclude .git --exclude .run --exclude .bin --exclude replays --exclude .fuzzcache --exclude evidence /verif/ "$ALT/verif/"
+( cd "$ALT/repo" && git apply "$PATCH" ) || { echo "patch does not apply"; exit 3; }
+sed -i "s|=> /repo\$|=> $ALT/repo|" "$ALT/verif/go.mod"
+grep -q "=> $ALT/repo" "$ALT/verif/go.mod" || { echo "go.mod not redirected"; exit 3; }
 start=$(date +%s)
-VERIF_EVIDENCE_DIR=/tmp/try_seeded.evidence ./check "$ID" --tier "$TIER" --seed "$SEED" > /tmp/try_seeded.$ID.out 2>&1
+( cd "$ALT/verif" && VERIF_REPO_DIR="$ALT/repo" VERIF_EVIDENCE_DIR="$ALT/evidence" ./check "$ID" --tier "$TIER" --seed "$SEED" ) > "$ALT/out.$ID.txt" 2>&1
 rc=$?
 end=$(date +%s)
 echo "seeded $ID tier=$TIER seed=$SEED rc=$rc secs=$((end-start))"
-grep -E "VIOLATION|KNOWN-FINDING|INCONCLUSIVE|error" /tmp/try_seeded.$ID.out | head -8
+grep -E "VIOLATION|KNOWN-FINDING|INCONCLUSIVE|error" "$ALT/out.$ID.txt" | head -8
 exit $rc
